@@ -34,6 +34,22 @@ Theorem C12_cylinder_in_iff : forall cx cy cz r h x y z,
   sq (x - cx) + sq (y - cy) <= sq r /\ cz - h / q 2 1 <= z /\ z <= cz + h / q 2 1.
 Proof. exact cylinder_in_iff. Qed.
 Print Assumptions C12_cylinder_in_iff.
+Theorem C12_cylinder_in_iff_Y : forall cx cy cz r h x y z,
+  cylinder_in cx cy cz r h AxY (x, y, z) = true <->
+  sq (x - cx) + sq (z - cz) <= sq r /\ cy - h / q 2 1 <= y /\ y <= cy + h / q 2 1.
+Proof. exact cylinder_in_iff_Y. Qed.
+Print Assumptions C12_cylinder_in_iff_Y.
+Theorem C12_cylinder_in_iff_X : forall cx cy cz r h x y z,
+  cylinder_in cx cy cz r h AxX (x, y, z) = true <->
+  sq (y - cy) + sq (z - cz) <= sq r /\ cx - h / q 2 1 <= x /\ x <= cx + h / q 2 1.
+Proof. exact cylinder_in_iff_X. Qed.
+Print Assumptions C12_cylinder_in_iff_X.
+(* the three axes describe one solid with the coordinates exchanged *)
+Theorem C12_cylinder_axes_exchange : forall cx cy cz r h x y z,
+  cylinder_in cx cy cz r h AxY (x, y, z) = cylinder_in cx cz cy r h AxZ (x, z, y) /\
+  cylinder_in cx cy cz r h AxX (x, y, z) = cylinder_in cz cy cx r h AxZ (z, y, x).
+Proof. exact cylinder_axes_exchange. Qed.
+Print Assumptions C12_cylinder_axes_exchange.
 Theorem C12_parabola_in_iff : forall h k a p, parabola_in h k a p = true <-> a * sq (fst p - h) <= snd p - k.
 Proof. exact parabola_in_iff. Qed.
 Print Assumptions C12_parabola_in_iff.
